@@ -127,3 +127,18 @@ package core
 //@ macro bankNonneg(b) = forall a Addr, d string :: bal(b, a, d) >= 0
 // The orbiter account did not gain in any denomination other than x.
 //@ macro orbNoGainExcept(x) = forall d string :: d != x ==> bal(bank, orb(), d) <= bal(old(bank), orb(), d)
+
+// ---------------------------------------------------------------------------------------------
+// The running coin is what an action sets (C06): the setters store exactly what they are given (a nil or
+// negative amount is stored as zero, as documented), so the next action and the forwarding see what the
+// previous action left - not a capped, rounded or otherwise adjusted value.
+// ---------------------------------------------------------------------------------------------
+//@ func (a *TransferAttributes) SetDestinationAmount(amount) ()
+//@   modifies a.destinationCoin
+//@   ensures[C06] a != nil && !isnil(amount) && val(amount) >= 0 ==> a.destinationCoin.Amount == amount
+//@   ensures[C06] a != nil && (isnil(amount) || val(amount) < 0) ==> !isnil(a.destinationCoin.Amount) && val(a.destinationCoin.Amount) == 0
+//@   ensures[C06] a != nil ==> a.destinationCoin.Denom == old(a.destinationCoin.Denom) && a.sourceCoin == old(a.sourceCoin)
+
+//@ func (a *TransferAttributes) SetDestinationDenom(denom) ()
+//@   modifies a.destinationCoin
+//@   ensures[C06] a != nil ==> a.destinationCoin.Denom == denom && a.destinationCoin.Amount == old(a.destinationCoin.Amount) && a.sourceCoin == old(a.sourceCoin)
